@@ -40,6 +40,7 @@ def check(ctx: Ctx):
     locate.check_cartesian_flow(ctx)
     locate.check_cartesian_volume(ctx)
     locate.check_merge(ctx)
+    support.check_axis_loop_guards(ctx)
     locate.check_cylindrical(ctx)
     locate.check_spherical(ctx)
     locate.check_label_connectivity(ctx)
